@@ -259,10 +259,21 @@ def run(ctx):
                        "for A and J + list trees; every token string up to length 5/6 over a 12-token alphabet; every single-token "
                        "deletion/insertion/replacement of 11 valid texts; every single-character deletion, quote insertion and proper prefix of them "
                        "(termination only); non-trivial = every case (each is a distinct text)")
+    # thread-pair independence first (LINE events are switched off again before the enumeration)
+    from checks import pair_ops  # noqa: PLC0415
+    from mc import pairs  # noqa: PLC0415
+
+    ops = [["sml", d] for d in pair_ops.LEAVES[:2] + pair_ops.LEAVES[3:5] + pair_ops.TREES] + [["sml_text", "< L < U1 1 2 > < A \"x y\" > >"]]
+    pair_execs = pairs.run_part(ctx, ops, "C15", 2 if ctx.thorough else 1)
     ctx.run_cases(check_case, cases(ctx), "c15", chunk=16)
 
 
 def replay(ctx, detail):
+    if isinstance(detail.get("case"), dict) and detail["case"].get("part") == "pair":
+        from mc import pairs  # noqa: PLC0415
+
+        pairs.replay_pair(ctx, detail["case"], "C15")
+        return
     res = check_case(detail["case"])
     ctx.evaluations += 1
     for sig, d in res.get("v", ()):
